@@ -127,7 +127,7 @@ func (s *Subject) registry() string {
 			imps[k] = true
 		}
 	}
-	sb.WriteString("package h\n\nimport (\n\t\"reflect\"\n\n\tp \"subj/p\"\n")
+	sb.WriteString("package h\n\nimport (\n\t\"reflect\"\n\n\tp \"subj/p\"\n\t\"subj/vref\"\n")
 	var il []string
 	for k := range imps {
 		dir := strings.TrimPrefix(k, "ext:")
@@ -160,6 +160,23 @@ func (s *Subject) registry() string {
 			fmt.Fprintf(&sb, "\t\tExtra: map[string]any{%s},\n", e.Extra)
 		}
 		sb.WriteString("\t},\n")
+	}
+	sb.WriteString("}\n\n")
+	// which types declare their own Equal / Compare is known to the generator: the reference need not guess
+	// it from method sets (reflection also lists methods promoted from embedded fields, go/types does not)
+	sb.WriteString("func init() {\n\tvref.Declared = map[string]map[reflect.Type]bool{\"Equal\": {}, \"Compare\": {}}\n")
+	if s.Prog != nil && s.Prog.Env != nil {
+		for _, d := range s.Prog.Env.AllDecls() {
+			if d.Pkg != nil {
+				continue
+			}
+			if d.UserEqual != "" {
+				fmt.Fprintf(&sb, "\tvref.Declared[\"Equal\"][reflect.TypeOf((*p.%s)(nil)).Elem()] = true\n", d.Name)
+			}
+			if d.UserCompare != "" {
+				fmt.Fprintf(&sb, "\tvref.Declared[\"Compare\"][reflect.TypeOf((*p.%s)(nil)).Elem()] = true\n", d.Name)
+			}
+		}
 	}
 	sb.WriteString("}\n")
 	return progen.Gofmt(sb.String())
